@@ -72,18 +72,31 @@ func (h *e2eHandler) HandleRPC(stream drpc.Stream, rpc string) error {
 // connection; then the client closes and the server loop returns.
 func VerifH_EndToEndUnary() {
 	trC, trS := hx.Pipe()
-	h := &e2eHandler{mode: vrt.Choice("mode", 2), msg: vrt.Str("emsg", 2), code: vrt.U64("ecode"), wrap: vrt.Bool("wrap")}
+	// lite=1 fixes the data (request, error text and code, no wrapper, no metadata) so that
+	// the budget goes into schedules instead: used with a preemption bound in the thorough tier
+	lite := vrt.Param("lite", 0) == 1
+	h := &e2eHandler{mode: vrt.Choice("mode", 2)}
+	if lite {
+		h.msg, h.code = "e", 7
+	} else {
+		h.msg, h.code, h.wrap = vrt.Str("emsg", 2), vrt.U64("ecode"), vrt.Bool("wrap")
+	}
 	srv := New(h)
 	serveDone := false
 	go func() { _ = srv.ServeOne(hx.NewCtx(), trS); serveDone = true }()
 	conn := drpcconn.New(trC)
 	enc := hx.ByteEnc{}
-	req := vrt.BytesN("req", 2)
+	req := []byte{1, 2}
+	withMeta := false
+	mk, mv := "k", "v"
+	if !lite {
+		req = vrt.BytesN("req", 2)
+		withMeta = vrt.Bool("withMeta")
+		mk, mv = vrt.Str("mkey", 1), vrt.Str("mval", 1)
+	}
 	var resp []byte
 	var err error
 	d := false
-	withMeta := vrt.Bool("withMeta")
-	mk, mv := vrt.Str("mkey", 1), vrt.Str("mval", 1)
 	var cctx context.Context = hx.NewCtx()
 	if withMeta {
 		cctx = drpcmetadata.Add(cctx, mk, mv)
